@@ -25,3 +25,37 @@ Example c19_nonvacuous :
   let s := ts_run init_forget [TRunStart; TTokenCancel; TRunBegin; TPollPending; TRunBegin; TCancelClose] in
   alloc s = false /\ futdrops s = 1 /\ deallocs s = 1 /\ badfree s = 0.
 Proof. vm_compute. repeat split; reflexivity. Qed.
+
+(* ---- the one-shot reply slot (Model/Slot.v; util/slot.rs) ----
+   For the constants GENERATED from the current util/slot.rs (after the shape of write / try_read / the two drop
+   handlers has been checked), for every interleaving of the writer (write or drop) and the reader (any number
+   of try_read, then drop) at one shared access per step: the allocation is never touched after it is freed nor
+   freed twice, the value is never dropped or moved out twice, and once both handles are gone the allocation is
+   freed and the value, if one was written, has been moved out by try_read or dropped.  The model is finite: the
+   proof computes its reachable states and checks closure under every step. *)
+Require Import NX.Model.Slot NX.gen.SlotProg NX.Proofs.SlotProofs NX.Proofs.SlotGen.
+
+Theorem c19_slot_source_is_proved_program : slot_gen = slot_fixed.
+Proof. exact slot_gen_is_proved. Qed.
+Print Assumptions c19_slot_source_is_proved_program.
+
+Theorem c19_slot_no_misuse : forall ls, sbad (os_run slot_gen os_init ls) = false.
+Proof. exact slot_gen_no_misuse. Qed.
+Print Assumptions c19_slot_no_misuse.
+
+Theorem c19_slot_released_exactly_once :
+  forall ls, let s := os_run slot_gen os_init ls in
+    swp s = WDone -> srp s = RDone -> sbox s = false /\ sval s <> VInit.
+Proof. exact slot_gen_released_exactly_once. Qed.
+Print Assumptions c19_slot_released_exactly_once.
+
+Theorem c19_slot_value_read_at_most_once :
+  forall ls, let s := os_run slot_gen os_init ls in sgot s = true -> sval s = VMoved.
+Proof. exact slot_gen_value_read_at_most_once. Qed.
+Print Assumptions c19_slot_value_read_at_most_once.
+
+(* the mask of a write that sets POPULATED only: the value of a reply that is never read is leaked *)
+Example c19_slot_leaky_mask_refuted :
+  let s := os_run slot_leaky os_init [SLWrite; SLW; SLRDrop; SLR] in
+  swp s = WDone /\ srp s = RDone /\ sbox s = true /\ sval s = VInit.
+Proof. exact slot_leaky_refuted. Qed.
